@@ -136,6 +136,10 @@ class BodyEnv:
         d = self.env.get(l)
         if d:
             for q, labs in d.items():
+                # the element marker of a collection filled through `push` / `insert` is transparent: an
+                # item taken out again (next, index, pop) has the fields of what was put in
+                if "[]" in q:
+                    q = tuple(x for x in q if x != "[]")
                 lq = len(q)
                 if lq <= len(F):
                     if q == F[:lq]:
@@ -171,6 +175,8 @@ class BodyEnv:
         if not d:
             return
         for q, labs in list(d.items()):
+            if "[]" in q and F:
+                q = tuple(x for x in q if x != "[]")
             lq = len(q)
             if lq <= len(F):
                 if q == F[:lq]:
